@@ -1,5 +1,5 @@
 """Contracts for src/read_groups.py and the group-id bookkeeping of src/long_read_counter.py (C09)."""
-from pyvc.api import contract, spec, lemma, record, bounded
+from pyvc.api import contract, spec, lemma, record, bounded, finite
 from pyvc import native
 
 R = "src/read_groups.py:"
@@ -220,3 +220,47 @@ def c09_split(tier, rng):
                 "obligation": "C09.read_group_table_split", "inputs": {"seed": base + k}, "observed": p[:3],
                 "required": "table entry on every chromosome", "replay_call": "contracts.c_groups:replay_split"}]}
     return {"cases": n, "bound": "%d random BAM/table pairs" % n, "violations": [], "samples": [{"seed": base}]}
+
+
+# ---- load_table: malformed rows are skipped (their reads end up under NA), never abort the run ------------------------------------------------
+@finite("C09.table_rows", ["C09"], note="the real load_table on every table made of <= 3 rows drawn from 9 row shapes (complete, one cell short, empty "
+        "group cell, extra cells, blank, comment, duplicate id) x 4 (read column, group column) layouts: no exception, exactly the rows that "
+        "have both cells are loaded, later duplicates win")
+def c09_table_rows(tier, rng):
+    import itertools, os, shutil, tempfile
+    rg = native.repo_import("src/read_groups.py")
+    base = os.path.join(os.path.dirname(os.path.dirname(os.path.abspath(__file__))), ".run")
+    os.makedirs(base, exist_ok=True)
+    d = tempfile.mkdtemp(prefix="tbl", dir=base)
+    shapes = ["r1\tg1", "r2", "r3\t", "r4\tg2\tx", "", "#r9\tg9", "r1\tg7", "\tg5", "r6\tg6\t"]
+    obl = dis = 0
+    viol = []
+    try:
+        for ri, gi in ((0, 1), (1, 0), (0, 2), (2, 1)):
+            for n in (1, 2, 3):
+                for rows in itertools.product(shapes, repeat=n):
+                    obl += 1
+                    path = os.path.join(d, "t.tsv")
+                    open(path, "w").write("\n".join(rows) + "\n")
+                    want = {}
+                    for line in rows:
+                        line = line.strip()
+                        if not line or line.startswith("#"):
+                            continue
+                        cols = line.split("\t")
+                        if len(cols) > max(ri, gi):
+                            want[cols[ri]] = cols[gi]
+                    try:
+                        got = rg.load_table(path, ri, gi, "\t")
+                        ok = got == want
+                    except Exception as e:
+                        got, ok = "%s: %s" % (type(e).__name__, e), False
+                    if ok:
+                        dis += 1
+                    elif len(viol) < 3:
+                        viol.append({"obligation": "C09.table_rows.%d_%d.%d" % (ri, gi, obl), "inputs": {"rows": list(rows), "read_column": ri, "group_column": gi},
+                                     "observed": got, "required": want})
+    finally:
+        shutil.rmtree(d, ignore_errors=True)
+    return {"obligations": obl, "discharged": dis, "violations": viol, "cases": obl, "exhaustive": True,
+            "bound": "tables of <= 3 rows over 9 row shapes x 4 column layouts", "samples": [{"rows": ["r1\tg1", "r2"], "read_column": 0, "group_column": 1}]}
